@@ -178,6 +178,35 @@ void encoding_roundtrip(eng::Ctx& ctx, const std::string& enc, const std::string
 	ctx.count("encoding_roundtrips");
 }
 
+// BDD encodings: the "symbolic" dump/load mode (cli: -o symbolic=yes).  Symbols are written as bit strings with
+// don't-cares; loading that text in symbolic mode and dumping it in the ordinary mode must give back the named rules.
+template <class Aut>
+void symbolic_roundtrip(eng::Ctx& ctx, const std::string& enc, const std::string& text)
+{
+	VATA::Parsing::TimbukParser parser;
+	VATA::Serialization::TimbukSerializer ser;
+	std::string sym1, sym2, back;
+	try {
+		eng::LibSection ls(ctx, "roundtrip-symbolic:" + enc);
+		Aut a;
+		VATA::AutBase::StateDict d1;
+		a.LoadFromString(parser, text, d1);
+		sym1 = a.DumpToString(ser, d1, "symbolic");
+		Aut b;
+		VATA::AutBase::StateDict d2;
+		b.LoadFromString(parser, sym1, d2, "symbolic");
+		sym2 = b.DumpToString(ser, d2, "symbolic");
+		back = b.DumpToString(ser, d2);
+	}
+	catch (const std::exception& e) { ctx.fail("roundtrip-symbolic:" + enc + ":exception", std::string("symbolic dump/load threw: ") + e.what()); return; }
+	Named n0 = read_named(text), nb = read_named(back), s1 = read_named(sym1), s2 = read_named(sym2);
+	if (s1.finals != s2.finals || s1.trans != s2.trans)
+		ctx.fail("roundtrip-symbolic:" + enc + ":differs", "second symbolic dump differs from the first:\n" + sym1 + "---\n" + sym2);
+	if (n0.finals != nb.finals || n0.trans != nb.trans)
+		ctx.fail("roundtrip-symbolic:" + enc + ":rules-lost-or-invented", "text -> symbolic dump -> symbolic load -> ordinary dump differs from the text:\n" + text + "--- symbolic\n" + sym1 + "--- back\n" + back);
+	ctx.count("symbolic_roundtrips");
+}
+
 } // namespace
 
 void harness::run_case(const eng::Raw& raw, eng::Ctx& ctx)
@@ -226,6 +255,8 @@ void harness::run_case(const eng::Raw& raw, eng::Ctx& ctx)
 		Gen b = make_desc(raw, (h[6] % 4) == 0, false, true);       // BDD: symbol names from a fixed pool (16-bit symbol space)
 		encoding_roundtrip<VATA::BDDBottomUpTreeAut>(ctx, "bdd-bu", ser.Serialize(b.desc), false);
 		encoding_roundtrip<VATA::BDDTopDownTreeAut>(ctx, "bdd-td", ser.Serialize(b.desc), false);
+		symbolic_roundtrip<VATA::BDDBottomUpTreeAut>(ctx, "bdd-bu", ser.Serialize(b.desc));
+		// (the top-down encoding has no symbolic dump: dumpToAutDescSymbolic throws NotImplemented)
 		Gen f = make_desc(raw, (h[6] % 4) == 0, true, false);
 		// a start state with a second start symbol (legal input)
 		if (h[7] % 3 == 0 && !f.states.empty()) {
